@@ -106,6 +106,7 @@ pub fn tzerr(out: &mut String, e: &TzError) {
 
 pub fn err(out: &mut String, e: &Error) {
     match e {
+        #[cfg(feature = "tz-alloc")]
         Error::Io(_) => out.push_str("Err(Io)"),
         Error::Tz(t) => tzerr(out, t),
         #[allow(unreachable_patterns)]
